@@ -289,7 +289,10 @@ class HashComputer:
                     )
                     or (
                         argument.default is not None
-                        and argument.default == remove_meta(argvalue)
+                        and (
+                            argument.default == remove_meta(argvalue)
+                            or self.same_signature(argument.default, argvalue)
+                        )
                     )
                 ):
                     # No update if same value (and not constant)
@@ -311,6 +314,21 @@ class HashComputer:
 
         else:
             raise NotImplementedError("Cannot compute hash of type %s" % type(value))
+
+    def same_signature(self, default, value) -> bool:
+        """Returns True if the value cannot be distinguished from the default
+        value as far as identifiers are concerned, i.e. if they only differ by
+        what is not part of the signature (e.g. meta or generated parameters
+        of a sub-configuration, ignored elements of nested containers)"""
+        if not isinstance(value, (Config, list, dict, float)):
+            return False
+
+        digests = []
+        for v in (default, value):
+            computer = HashComputer(None, ConfigPath(), version=self.version)
+            computer.update(v)
+            digests.append(computer._hasher.digest())
+        return digests[0] == digests[1]
 
     @staticmethod
     def compute(
